@@ -239,6 +239,7 @@ def parse_trace(text):
     """inputs (globals in_* / s_*) of the first counterexample trace."""
     vals = {}
     started = False
+    nstream = 0
     for line in text.splitlines():
         if line.startswith("Trace for "):
             if started:
@@ -246,6 +247,11 @@ def parse_trace(text):
             started = True
             continue
         if not started:
+            continue
+        ms = re.match(r"^  vp_stream_value=.*\(([01 ]+)\)$", line)
+        if ms:
+            vals[("s_stream", nstream)] = int(ms.group(1).replace(" ", ""), 2)
+            nstream += 1
             continue
         m = TRACE_RE.match(line)
         if not m or m.group("fld"):
